@@ -62,7 +62,7 @@ spec('BuckConverter', 'buck_converter', [dict()], tol=1e-11, tmax=0.0)
 spec('DiscontinuousTestODE', 'DiscontinuousTestODE', [dict(newton_tol=1e-11)], tol='newton_tol', t0=1.0, tmax=0.5, skip_factors=(1.0,))
 spec('DiscontinuousTestODE', 'ExactDiscontinuousTestODE', [dict(newton_tol=1e-11)], tol='newton_tol', t0=1.0, tmax=0.5, exact_solver=True)
 spec('FastWaveSlowWave_0D', 'swfw_scalar', [dict(lambda_s=np.array([-1.0, -0.3j]), lambda_f=np.array([-100.0, 5j]), u0=1.0)], tol=1e-12)
-spec('GeneralizedFisher_1D_FD_implicit', 'generalized_fisher', [dict(nvars=15, nu=1.0, lambda0=2.0, newton_tol=1e-11)], tol='newton_tol')
+spec('GeneralizedFisher_1D_FD_implicit', 'generalized_fisher', [dict(nvars=15, nu=1.0, lambda0=2.0, newton_tol=1e-11), dict(nvars=15, nu=2.0, lambda0=1.5, newton_tol=1e-11), dict(nvars=31, nu=0.5, lambda0=3.0, newton_tol=1e-11)], tol='newton_tol')
 spec('HeatEquation_ND_FD', 'heatNd_unforced', [dict(nvars=15, nu=0.1, freq=2, bc='dirichlet-zero'), dict(nvars=16, nu=0.3, freq=2, bc='periodic'), dict(nvars=15, nu=0.1, freq=2, bc='neumann-zero'),
      dict(nvars=15, nu=0.1, freq=1, bc='dirichlet-zero', solver_type='CG', lintol=1e-12), dict(nvars=15, nu=0.1, freq=1, bc='dirichlet-zero', solver_type='GMRES', lintol=1e-12), dict(nvars=(7, 7), nu=0.1, freq=(1, 1), bc='dirichlet-zero')],
      tol=1e-11, itertol={'GMRES': 1e-9, 'CG': 1e-9})
@@ -85,7 +85,7 @@ spec('odeSystem', 'JacobiElliptic', [dict()], tol='newton_tol', tmax=0.0)
 spec('polynomial_test_problem', 'polynomial_testequation', [dict(degree=3, seed=5)], tol=1e-11, tmax=1.0)
 spec('polynomial_test_problem', 'polynomial_testequation_IMEX', [dict(degree=3, seed=5)], tol=1e-11, tmax=1.0)
 # no implicit solver (second-order / particle problems): eval_f and u_exact contracts only
-spec('HarmonicOscillator', 'harmonic_oscillator', [dict(k=2.0, mu=0.1, u0=(1.0, 0.0))], nosolve=True)
+spec('HarmonicOscillator', 'harmonic_oscillator', [dict(k=2.0, mu=0.1, u0=(1.0, 0.0)), dict(k=1.0, mu=3.0, u0=(1.0, 0.5)), dict(k=1.0, mu=2.0, u0=(0.7, -0.4)), dict(k=4.0, mu=0.0, u0=(0.3, 1.0)), dict(k=0.25, mu=5.0, u0=(-1.0, 2.0))], nosolve=True)
 spec('FermiPastaUlamTsingou', 'fermi_pasta_ulam_tsingou', [dict(npart=8, alpha=0.25, k=1.0, energy_modes=[[1, 2]])], nosolve=True)
 spec('HenonHeiles', 'henon_heiles', [dict()], nosolve=True)
 spec('OuterSolarSystem', 'outer_solar_system', [dict(sun_only=False)], nosolve=True)
@@ -235,6 +235,31 @@ def run_class(case, r):
         r.check(isinstance(f1, P.dtype_f) and f1 is not f2 and obj_digest(f1) == obj_digest(f2), 'eval-f-fresh-deterministic', f'{tag}: eval_f does not return a fresh, reproducible {P.dtype_f.__name__}')
         r.check(not shares(f1, u), 'eval-f-result-independent', f'{tag}: eval_f result shares memory with the state')
         r.check(isinstance(u, P.dtype_u), 'u-exact-type', f'{tag}: u_exact returned {type(u).__name__}')
+        if name == 'harmonic_oscillator':
+            # closed-form trajectory: matches the configured initial condition, and (pos, vel)' = (vel, eval_f) along it
+            import contextlib
+            import io
+
+            with contextlib.redirect_stdout(io.StringIO()):
+                ua = P.u_exact(0.0)
+                e0 = max(abs(float(np.asarray(ua.pos).ravel()[0]) - kw['u0'][0]), abs(float(np.asarray(ua.vel).ravel()[0]) - kw['u0'][1]))
+                r.check(e0 <= 1e-12 * (1 + max(abs(x) for x in kw['u0'])), 'closed-form-solution-matches-initial-condition', f'{tag}: u_exact(0) = ({float(np.asarray(ua.pos).ravel()[0])!r}, {float(np.asarray(ua.vel).ravel()[0])!r}) but u0 = {kw["u0"]}')
+                for ts in rng.uniform(0.05, 2.0, 3):
+                    h = 1e-3
+
+                    def ue(tt):
+                        x = twin.u_exact(tt)
+                        return np.array([float(np.asarray(x.pos).ravel()[0]), float(np.asarray(x.vel).ravel()[0])])
+
+                    d1 = (ue(ts + h) - ue(ts - h)) / (2 * h)
+                    d2 = (ue(ts + h / 2) - ue(ts - h / 2)) / h
+                    rich = (4 * d2 - d1) / 3
+                    ux = twin.u_exact(ts)
+                    acc = float(np.asarray(twin.eval_f(ux, ts)).ravel()[0])
+                    exp = np.array([float(np.asarray(ux.vel).ravel()[0]), acc])
+                    e = float(np.max(np.abs(rich - exp)))
+                    sc = max(1.0, float(np.max(np.abs(exp))))
+                    r.check(e <= 1e-5 * sc, 'closed-form-solution-satisfies-ode', f'{tag}: d/dt u_exact({ts:.3g}) = {rich} differs from (vel, eval_f(u_exact)) = {exp}')
         r.nontrivial = True
         r.observe('class', name)
         r.sample = dict(cls=name, variant=vi, kind='nosolve')
@@ -340,6 +365,12 @@ def run_class(case, r):
                     r.check(e0 <= bound, 'factor-zero-returns-rhs', f'{tag}: {meth}(factor=0) differs from rhs by {e0:.3e}', mech=mech)
                 judged += 1
     # ---------------- closed-form solution: initial value and derivative (0-D ODE classes)
+    if 'u0' in kw and name in ('testequation0d', 'test_equation_IMEX', 'swfw_scalar', 'logistics_equation', 'vanderpol', 'nonlinear_ODE_1'):
+        ua = np.asarray(P.u_exact(0.0)).astype(complex).ravel()
+        want = np.broadcast_to(np.asarray(kw['u0'], dtype=complex).ravel(), ua.shape) if np.asarray(kw['u0']).size in (1, ua.size) else None
+        if want is not None:
+            e0 = float(np.max(np.abs(ua - want)))
+            r.check(e0 <= 1e-12 * (1 + float(np.max(np.abs(want)))), 'closed-form-solution-matches-initial-condition', f'{tag}: u_exact(0) = {ua} but the configured initial value is {kw["u0"]}')
     if not sp.get('spectral') and not sp.get('no_exact') and np.asarray(P.u_exact(t0)).size <= 8 and tmax > 0:
         ts = t0 + float(rng.uniform(0.1, 0.9)) * tmax
         try:
